@@ -52,29 +52,44 @@ def check(prog, res, tier):
     nfi = rci.lookup('__next__')[1]
     MAX = max_len(prog)
 
-    # ---------------- C03.a format agreement
-    fmts = {}
-    for q in (WRITE, CLOSE, VNEXT, 'mciipm.ipm_info'):
-        if not prog.has_func(q):
-            continue
-        fi = prog.func(q)
-        for n in ast.walk(fi.node):
-            if isinstance(n, ast.Call) and isinstance(n.func, ast.Attribute) and n.func.attr in ('pack', 'unpack') \
-                    and n.args and isinstance(n.args[0], ast.Constant) and isinstance(n.args[0].value, str):
-                fmts.setdefault(q, []).append(n.args[0].value)
+    # ---------------- C03.a format agreement (formats observed on the abstract paths of the four siblings)
+    def formats_of(runs, fname):
+        out = set()
+        for p in runs.inv:
+            for e in p.events:
+                if e.kind == 'ext-call' and e.data['callee'] in ('struct.pack', 'struct.unpack') and e.func == fname and e.data['args']:
+                    f0 = p.interp.py_key(p.interp.resolve(e.data['args'][0]))
+                    out.add(f0 if isinstance(f0, str) else '<non-constant>')
+        return out
+
+    def entry_w0(it):
+        obj, f = make_writer(it, prog, blocked=False)
+        it.call_function(wfi, [it.sym_bytes('record', lo=1, hi=MAX)], {}, self_obj=obj)
+        it.call_function(cfi, [], {}, self_obj=obj)
+        return obj
+    runs_w0 = Runs(prog, entry_w0, res=res)
+    rr0 = ReaderRuns(prog, res)
+    fmts = {WRITE: formats_of(runs_w0, WRITE), CLOSE: formats_of(runs_w0, CLOSE),
+            VNEXT: formats_of(rr0.runs('mciipm.VbsReader', False), VNEXT)}
+    if prog.has_func('mciipm.ipm_info'):
+        ifi0 = prog.func('mciipm.ipm_info')
+
+        def entry_i0(it):
+            return it.call_function(ifi0, [it.new_file('in', tags=frozenset(['wire']))], {})
+        fmts['mciipm.ipm_info'] = formats_of(Runs(prog, entry_i0, res=res), 'mciipm.ipm_info')
     ob = Ob('C03.a', 'writer, terminator, reader and inspector use the same 4-byte big-endian unsigned length format',
             func_where(wfi), 'struct.pack/unpack format constants')
     allf = sorted({f for fl in fmts.values() for f in fl})
-    missing = [q for q in (WRITE, CLOSE, VNEXT) if q not in fmts]
-    if missing:
-        ob.verdict, ob.detail = UNDECIDED, f'no literal struct format found in {missing}'
+    missing = [q for q in (WRITE, CLOSE, VNEXT) if not fmts.get(q)]
+    if missing or '<non-constant>' in allf:
+        ob.verdict, ob.detail = UNDECIDED, f'no constant struct format observed in {missing or allf}'
     elif len(allf) != 1:
-        ob.verdict, ob.detail, ob.witness = REFUTED, f'length prefix formats differ between siblings: {fmts}', {'formats': allf}
+        ob.verdict, ob.detail, ob.witness = REFUTED, f'length prefix formats differ between siblings: { {k: sorted(v) for k, v in fmts.items()} }', {'formats': allf}
     else:
         f0 = allf[0]
         ok = f0[0] in '>!' and struct.calcsize(f0) == 4 and f0[1:] in ('I', 'L')
         if ok:
-            ob.verdict, ob.detail = PROVED, f'{sum(len(v) for v in fmts.values())} format constants all fold to {f0!r} (size 4)'
+            ob.verdict, ob.detail = PROVED, f'{len(fmts)} siblings all use {f0!r} (size 4)'
         else:
             ob.verdict, ob.detail, ob.witness = REFUTED, f'length prefix format is {f0!r}, not big-endian unsigned 4 bytes', {'format': f0}
     res.add(ob)
@@ -213,17 +228,18 @@ def check(prog, res, tier):
     ob = Ob('C03.d', 'maximum record length is read from configuration key MAX_VBS_RECORD_LENGTH (default 6000)',
             func_where(nfi), "config.config.get('MAX_VBS_RECORD_LENGTH', 6000)")
     found = []
-    for n in ast.walk(nfi.node):
-        if isinstance(n, ast.Call) and isinstance(n.func, ast.Attribute) and n.func.attr == 'get' and n.args and \
-                isinstance(n.args[0], ast.Constant) and n.args[0].value == 'MAX_VBS_RECORD_LENGTH':
-            d = n.args[1].value if len(n.args) > 1 and isinstance(n.args[1], ast.Constant) else None
-            found.append(d)
+    for p in rr.runs('mciipm.VbsReader', False).inv:
+        for e in p.events:
+            if e.kind == 'method' and e.data['name'] == 'get' and e.func == VNEXT and e.data['args'] and \
+                    p.interp.py_key(e.data['args'][0]) == 'MAX_VBS_RECORD_LENGTH':
+                d = p.interp.py_key(e.data['args'][1]) if len(e.data['args']) > 1 else None
+                found.append(d)
     if not found:
-        ob.verdict, ob.detail = UNDECIDED, 'configuration lookup not found'
+        ob.verdict, ob.detail = UNDECIDED, 'configuration lookup not observed'
     elif any(d != 6000 for d in found):
-        ob.verdict, ob.detail, ob.witness = REFUTED, f'default maximum is {found}, not 6000', {'defaults': found}
+        ob.verdict, ob.detail, ob.witness = REFUTED, f'default maximum is {sorted(set(map(str, found)))}, not 6000', {'defaults': sorted(set(map(str, found)))}
     else:
-        ob.verdict, ob.detail = PROVED, f'{len(found)} lookups with default 6000'
+        ob.verdict, ob.detail = PROVED, f'lookup with default 6000 on {len(found)} path visits'
     res.add(ob)
 
     # ---------------- C03.e wrapper pairing
@@ -256,21 +272,36 @@ def check(prog, res, tier):
     res.add(wrap_ob('mciipm.VbsWriter', 'out_file', 'Block1014', 'VbsWriter(blocked=True) writes through Block1014, otherwise directly'))
     res.add(wrap_ob('mciipm.VbsReader', 'vbs_data', 'Unblock1014', 'VbsReader(blocked=True) reads through Unblock1014, otherwise directly'))
 
+    from .tools import io_summaries
+    from .c19 import ctor_of
     for q, target in (('mciipm.vbs_list_to_bytes', 'VbsWriter'), ('mciipm.vbs_bytes_to_list', 'VbsReader')):
         if not prog.has_func(q):
             continue
         fi = prog.func(q)
-        ob = Ob('C03.e', f'{fi.name} passes its keyword options through to {target}', func_where(fi), f'{target}(..., **kwargs)')
-        ok = False
-        for n in ast.walk(fi.node):
-            if isinstance(n, ast.Call) and isinstance(n.func, ast.Name) and n.func.id == target:
-                if any(k.arg is None for k in n.keywords):
-                    ok = True
-        if ok:
-            ob.verdict, ob.detail = PROVED, '**kwargs forwarded'
-        else:
-            ob.verdict, ob.detail, ob.witness = REFUTED, f'{target} is constructed without the caller options (blocked=... is lost)', {'kwargs': 'dropped'}
-        res.add(ob)
+
+        def entry_k(it, fi=fi):
+            bl = SymV('blocked_option', 'bool')
+            it.user['bl'] = bl
+            arg = ListV(items=None, elem=it.sym_bytes('rec', lo=1), length=it.sym_int('n', 0, None).lin) if 'list_to' in fi.name \
+                else it.sym_bytes('vbs_bytes')
+            return it.call_function(fi, [arg], {'blocked': bl})
+        runs_k = Runs(prog, entry_k, summaries=io_summaries(prog), res=res)
+
+        def chk_k(p, mode, target=target):
+            if p.outcome == 'loopback':
+                return []
+            c = ctor_of(p.interp, target)
+            if not c:
+                return [definite(f'{target} is not constructed')]
+            b = c[0][1]
+            got = b.get('blocked')
+            if got is None and isinstance(b.get('**'), DictV):
+                got = b['**'].items.get('blocked')
+            if got is not p.interp.user['bl']:
+                return [definite(f'{target} is constructed without the caller\'s options (blocked=... is lost)')]
+            return []
+        res.add(runs_k.judge('C03.e', f'{fi.name} passes its keyword options through to {target}', func_where(fi),
+                             f'{target}(..., **kwargs)', chk_k, rule=f'C03.e.{fi.name}', unknown_ok=lambda u: True))
 
 
 def _read_request(p, ev):
